@@ -125,6 +125,12 @@ pub async fn run<TCompilationProfile: CompilationProfile>(
     eprintln!("Running server loop");
 
     let (tokio_sender, mut lsp_message_receiver) = tokio::sync::mpsc::channel(100);
+    #[cfg(isographlabs_isograph_verif)]
+    bridge_crossbeam_to_tokio(
+        verif_inject_lsp_messages(connection.receiver, &mut lsp_message_receiver),
+        tokio_sender,
+    );
+    #[cfg(not(isographlabs_isograph_verif))]
     bridge_crossbeam_to_tokio(connection.receiver, tokio_sender);
 
     // After 100ms of inactivity, we compile the codebase and emit diagnostics.
@@ -315,4 +321,36 @@ pub fn verif_dispatch_request<TCompilationProfile: CompilationProfile>(
     lsp_state: &LspState<TCompilationProfile>,
 ) -> Response {
     dispatch_request(request, lsp_state)
+}
+
+#[cfg(isographlabs_isograph_verif)]
+thread_local! {
+    static VERIF_LSP_MESSAGES: std::cell::RefCell<Option<tokio::sync::mpsc::Receiver<lsp_server::Message>>> =
+        const { std::cell::RefCell::new(None) };
+}
+
+/// Verification hook: the next `run` on this thread takes its client messages from this
+/// receiver instead of from the thread that bridges the connection's crossbeam channel
+/// (an OS thread whose timing a deterministic simulator cannot decide).
+#[cfg(isographlabs_isograph_verif)]
+pub fn verif_inject_lsp_message_receiver(receiver: tokio::sync::mpsc::Receiver<lsp_server::Message>) {
+    VERIF_LSP_MESSAGES.with(|r| *r.borrow_mut() = Some(receiver));
+}
+
+/// With an injected receiver the loop reads from it, and the bridge thread gets a receiver
+/// whose channel is already closed (it ends at once).
+#[cfg(isographlabs_isograph_verif)]
+fn verif_inject_lsp_messages(
+    connection_receiver: crossbeam::channel::Receiver<lsp_server::Message>,
+    lsp_message_receiver: &mut tokio::sync::mpsc::Receiver<lsp_server::Message>,
+) -> crossbeam::channel::Receiver<lsp_server::Message> {
+    match VERIF_LSP_MESSAGES.with(|r| r.borrow_mut().take()) {
+        Some(injected) => {
+            *lsp_message_receiver = injected;
+            let (closed_sender, closed_receiver) = crossbeam::channel::bounded(0);
+            drop(closed_sender);
+            closed_receiver
+        }
+        None => connection_receiver,
+    }
 }
